@@ -41,6 +41,15 @@ theorem C05_paths_checker (i : Nat) (name : String) (args : Expr) (body : List S
     IsPath g (walkFn fuel (.functionDef i name args body decs rets isAsync) ω) :=
   pathCheck_sound i name args body decs rets isAsync g h fuel ω
 
+/-! ## Every statement kind has its visitor -/
+
+/-- Every statement of the modelled language is handled by a `visit_*` method the model mirrors by name (`modelVisitors`,
+compared on every run with the methods the real `AstToCfg` class actually has): no statement kind silently falls back to
+`generic_visit`. -/
+theorem C05_visitors_cover_statements (s : Stmt) (inLoop : Bool) (h : s.supported inLoop = true) :
+    stmtKindName s ∈ modelVisitors ∨ (∃ i ty nm b, s = .handler i ty nm b) := by
+  cases s <;> simp_all [Stmt.supported, stmtKindName, modelVisitors]
+
 /-! ## Well-formedness of every graph the model builds
 
 For ALL root functions (any `Stmt` tree, including `try`/`finally`, async constructs, duplicate ids, …): whenever the
